@@ -101,7 +101,7 @@ def shuffled(rows, rng, how='interleave'):
 
 def build(rows, **kwargs):
     import andes
-    ss = andes.System(default_config=True, no_output=True, **kwargs)
+    ss = andes.System(default_config=True, no_output=True, autogen_stale=False, **kwargs)
     for m, d in rows:
         dd = {k: v for k, v in d.items() if not (isinstance(v, float) and np.isnan(v))}
         ss.add(m, dd)
